@@ -104,6 +104,12 @@ class JsonSchemaParser:
                 # bounds of one constrained type have one number type: {"minimum": 1, "maximum": 2.5}
                 for k in bounds:
                     constraints[k] = float(constraints[k])
+        if 'ge' in constraints and constraints.get('le') == constraints['ge'] and 'const' not in constraints \
+                and 'enum' not in constraints:
+            # {"minimum": 1, "maximum": 1}: exactly that number (a range needs two different ends)
+            value = constraints.pop('ge')
+            constraints.pop('le')
+            constraints['const'] = value
         return constraints
 
     def parse_field(self, schema: dict,
